@@ -215,6 +215,9 @@ func (e *Engine) takeTick(c *ChanObj) {
 	c.recvs++
 	e.tracef("tick %s", c)
 	e.advanceClock(nil)
+	if e.tickHook.Fn != nil {
+		e.callValue(e.tickHook)
+	}
 }
 
 func (e *Engine) chanRecv(c *ChanObj, elemT types.Type, pos string) (Value, bool) {
@@ -400,6 +403,9 @@ func (e *Engine) selectOp(fr *Frame, x *ssa.Select) Value {
 					e.addPC(lt(nd, lim))
 					s.c.nextDue = nd
 					v = e.timeValue(now)
+					if e.tickHook.Fn != nil {
+						e.callValue(e.tickHook)
+					}
 				} else {
 					v, ok = e.doRecv(s.c, s.elem)
 				}
